@@ -111,6 +111,18 @@ func valueRoots(v ssa.Value, through func(callee string) bool) []Root {
 				out = append(out, Root{Kind: "call", V: x, Callee: name, Idx: -1})
 			}
 		case *ssa.Field:
+			/* A field of a row of a table built in this function: what
+			was put into that field of any row. */
+			if ld, ok := x.X.(*ssa.UnOp); ok && token.MUL == ld.Op {
+				if ia, ok := ld.X.(*ssa.IndexAddr); ok {
+					if vals, ok := tableFieldValues(ia.X, x.Field); ok {
+						for _, e := range vals {
+							walk(e)
+						}
+						return
+					}
+				}
+			}
 			fv, base := fieldValOf(x)
 			out = append(out, Root{Kind: "field", V: x, Field: fv, Base: base})
 		case *ssa.UnOp:
@@ -121,6 +133,14 @@ func valueRoots(v ssa.Value, through func(callee string) bool) []Root {
 			addr := resolveFree(x.X)
 			switch a := addr.(type) {
 			case *ssa.FieldAddr:
+				if ia, ok := a.X.(*ssa.IndexAddr); ok {
+					if vals, ok := tableFieldValues(ia.X, a.Field); ok {
+						for _, e := range vals {
+							walk(e)
+						}
+						return
+					}
+				}
 				fv, base := fieldAddrOf(a)
 				out = append(out, Root{Kind: "field", V: x, Field: fv, Base: base})
 			case *ssa.IndexAddr:
@@ -242,4 +262,136 @@ func inlineReturns(c *ssa.Call, idx int, walk func(ssa.Value)) bool {
 		walk(rv)
 	}
 	return true
+}
+
+// tableFieldValues: tbl is a slice built in the function itself — slice
+// literals, grown with append — whose rows are structs; it returns every value
+// put into field f of a row.  ok is false when tbl can hold rows from elsewhere
+// or a row is written other than field by field.
+func tableFieldValues(tbl ssa.Value, f int) ([]ssa.Value, bool) {
+	var out []ssa.Value
+	ok := true
+	seen := map[ssa.Value]bool{}
+	var rowsOf func(arr *ssa.Alloc)
+	rowsOf = func(arr *ssa.Alloc) {
+		for _, ref := range *arr.Referrers() {
+			switch u := ref.(type) {
+			case *ssa.IndexAddr:
+				for _, r2 := range *u.Referrers() {
+					switch w := r2.(type) {
+					case *ssa.FieldAddr:
+						for _, r3 := range *w.Referrers() {
+							if st, isSt := r3.(*ssa.Store); isSt && st.Addr == ssa.Value(w) {
+								if w.Field == f {
+									out = append(out, st.Val)
+								}
+							}
+						}
+					case *ssa.Store:
+						if w.Addr != ssa.Value(u) {
+							continue
+						}
+						/* A whole row stored: a struct assembled in a local
+						variable, field by field. */
+						ld, isLd := w.Val.(*ssa.UnOp)
+						if !isLd || token.MUL != ld.Op {
+							ok = false
+							continue
+						}
+						tmp, isAl := ld.X.(*ssa.Alloc)
+						if !isAl {
+							ok = false
+							continue
+						}
+						got := false
+						for _, r3 := range *tmp.Referrers() {
+							switch t := r3.(type) {
+							case *ssa.FieldAddr:
+								for _, r4 := range *t.Referrers() {
+									if st, isSt := r4.(*ssa.Store); isSt && st.Addr == ssa.Value(t) && t.Field == f {
+										out = append(out, st.Val)
+										got = true
+									}
+								}
+							case *ssa.Store:
+								if t.Addr == ssa.Value(tmp) {
+									ok = false
+								}
+							}
+						}
+						if !got {
+							out = append(out, zeroValueMarker)
+						}
+					}
+				}
+			}
+		}
+	}
+	var walk func(v ssa.Value)
+	walk = func(v ssa.Value) {
+		if nil == v || seen[v] || !ok {
+			return
+		}
+		seen[v] = true
+		switch x := v.(type) {
+		case *ssa.Const:
+			if !x.IsNil() {
+				ok = false
+			}
+		case *ssa.Phi:
+			for _, e := range x.Edges {
+				walk(e)
+			}
+		case *ssa.Slice:
+			arr, isArr := x.X.(*ssa.Alloc)
+			if !isArr {
+				ok = false
+				return
+			}
+			if _, isA := arr.Type().Underlying().(*types.Pointer).Elem().Underlying().(*types.Array); !isA {
+				ok = false
+				return
+			}
+			rowsOf(arr)
+		case *ssa.Call:
+			if bi, isB := x.Common().Value.(*ssa.Builtin); isB && "append" == bi.Name() {
+				for _, a := range x.Common().Args {
+					walk(a)
+				}
+				return
+			}
+			ok = false
+		case *ssa.UnOp:
+			if al, isAl := resolveFree(x.X).(*ssa.Alloc); isAl && token.MUL == x.Op {
+				sts := storesTo(al)
+				if 0 == len(sts) {
+					ok = false
+				}
+				for _, st := range sts {
+					walk(st.Val)
+				}
+				return
+			}
+			ok = false
+		default:
+			ok = false
+		}
+	}
+	if _, isStruct := sliceElemStruct(tbl.Type()); !isStruct {
+		return nil, false
+	}
+	walk(tbl)
+	return out, ok && 0 != len(out)
+}
+
+// zeroValueMarker stands for a field left at its zero value.
+var zeroValueMarker ssa.Value = ssa.NewConst(nil, types.Typ[types.UntypedNil])
+
+func sliceElemStruct(t types.Type) (*types.Struct, bool) {
+	sl, ok := t.Underlying().(*types.Slice)
+	if !ok {
+		return nil, false
+	}
+	st, ok := sl.Elem().Underlying().(*types.Struct)
+	return st, ok
 }
